@@ -315,3 +315,23 @@ PREDS = {
     "choice_noninvolutive_order": any_type(_choice_noninvolutive_order),
     "set_default_explicit": any_leaf(_set_default_explicit),
 }
+
+
+# ---- predicates on helper calls (C16, C17): f(call, event) ----------------------------------
+def _h_real_leading_zero(c, ev):
+    return _real_mantissa_leading_zero({"k": "REAL"}, c["d"])
+
+
+def _h_real_subnormal(c, ev):
+    return _real_subnormal({"k": "REAL"}, c["d"])
+
+
+def _h_unsigned_ge_2p63(c, ev):
+    return big_to_int(c["x"]) >= 2 ** 63
+
+
+def _h_negative_contents(c, ev):
+    return len(c["o"]) > 0 and c["o"][0] >= 128
+
+
+HPREDS = {"h_unsigned_ge_2p63": _h_unsigned_ge_2p63, "h_negative_contents": _h_negative_contents,"real_mantissa_leading_zero": _h_real_leading_zero, "real_subnormal": _h_real_subnormal}
